@@ -230,7 +230,62 @@ pub fn run(seed: u64, out: &str, millis: u64) -> bool {
     }
     if !hammer(&mut sink, millis) { all_ok = false; }
     sink.flush();
+    if !cold_put_under_drain(&mut sink, millis) { all_ok = false; }
+    sink.flush();
     all_ok
+}
+
+/// Admission while the consumer is busy. One resident key fills the cache and is read without pause; the single access
+/// buffer is large, so the consumer holds the sketch's write lock for a whole batch at a time. Meanwhile never-seen keys of
+/// the resident's weight are put, one after the other, each awaited. Once the first batch has been delivered the resident's
+/// estimate is at least 7 at every instant (saturated at 15, halved at most once between two batches of its own
+/// increments) and a never-seen key's is 0 — the same on every run: hashing is seeded with constants —, so the TinyLFU rule
+/// refuses every one of these puts and the resident stays. A sketch read that does not WAIT for the consumer (a `try_*`
+/// acquisition that answers 0) makes hot and cold keys look alike exactly here, and nowhere in a step-wise schedule.
+fn cold_put_under_drain(sink: &mut Sink, millis: u64) -> bool {
+    let config = ConfigBuilder::new(1024, 16, 10)
+        .access_pool_size(1).access_buffer_size(100_000).command_buffer_size(64).shards(2)
+        .ttl_tick_duration(Duration::from_millis(50)).build();
+    let cache = Arc::new(CacheD::<u64, u64>::new(config));
+    let hot = 1u64;
+    let mut found: Vec<String> = Vec::new();
+    let accepted = cache.put_with_weight(hot, 100, 10).map(|ack| wait_done(&ack) == CommandStatus::Accepted).unwrap_or(false);
+    let stop = Arc::new(AtomicBool::new(false));
+    let reader = { let (cache, stop) = (cache.clone(), stop.clone()); std::thread::spawn(move || {
+        let mut reads = 0u64;
+        while !stop.load(Ordering::Relaxed) { let _ = cache.get(&hot); reads += 1; }
+        reads
+    }) };
+    let stats = |kind: StatsType| cache.stats_summary().get(&kind).unwrap_or(0);
+    let warm_until = Instant::now() + Duration::from_secs(30);
+    while stats(StatsType::AccessAdded) < 100_000 && Instant::now() < warm_until { std::thread::sleep(Duration::from_millis(2)); }
+    let warmed = stats(StatsType::AccessAdded) >= 100_000;
+    let until = Instant::now() + Duration::from_millis((millis / 2).clamp(150, 1500));
+    let (mut puts, mut refused) = (0u64, 0u64);
+    while accepted && warmed && Instant::now() < until {
+        let cold = 1_000_000 + puts;
+        puts += 1;
+        match cache.put_with_weight(cold, cold, 10).map(|ack| wait_done(&ack)) {
+            Ok(CommandStatus::Rejected(_)) => refused += 1,
+            Ok(status) => {
+                let delivered = stats(StatsType::AccessAdded);
+                found.push(format!("C06/cold-key-evicted-hot-key under consumer load: put of never-read key {} answered {:?} although the only resident (weight 10 = the whole cache) had {} delivered accesses; get(resident) = {:?}", cold, status, delivered, cache.get(&hot)));
+                found.push(format!("C14/estimate-undercounts under consumer load: a resident with {} delivered accesses was treated as no hotter than never-read key {} (put answered {:?}): its estimate was read as 0", delivered, cold, status));
+                break;
+            }
+            Err(_) => break,
+        }
+    }
+    stop.store(true, Ordering::SeqCst);
+    let reads = reader.join().unwrap_or(0);
+    if accepted && warmed && found.is_empty() && cache.get(&hot) != Some(100) {
+        found.push("C06/cold-key-evicted-hot-key under consumer load: the resident is gone although every put was refused".to_string());
+    }
+    sink.both(&format!("# case stress cold-put-under-drain warmed={} reads={} cold-puts={} refused={}", warmed, reads, puts, refused));
+    writeln!(sink.input, "S monitors").unwrap();
+    writeln!(sink.implementation, "R {}", if found.is_empty() { "clean".to_string() } else { format!("violations {}", found.join(" ;; ")) }).unwrap();
+    cache.shutdown();
+    found.is_empty()
 }
 
 /// Eight threads issue un-awaited writes of fresh keys (plain and with a time-to-live), deletes and reads as fast as they
